@@ -139,66 +139,127 @@ def r05_2_labels(chk):
 
 
 def r05_3_routing(chk):
+    """Routing of values into attributes, decided on the inlined value-flow summary of EFLRItem.set_attributes: whatever
+    helpers the loop body is split into, the stores that finally happen are setattr(<attribute object>, part, value)."""
+    from ..terms import (SELF, NONE, A, K, attr_stores, raise_conditions, is_call, call_arg, contains, pp, subterms,
+                         unroll_const_loops)
     ix = chk.ix
     item = ix.get_class("EFLRItem")
     sa = item.lookup("set_attributes")
     chk.consult(sa)
-    s = norm(sa.node)
-    checks = {
-        "plain-value-to-.value": "set_value(attr, attr_value)" in s and "_key: str='value'" in s.replace(" = ", "="),
-        "parts-only-value-units": "if key not in ('value', 'units'):" in s and "raise ValueError" in s,
-        "through-setattr": "setattr(_attr, _key, _value)" in s,
-        "unknown-attribute-raises": "raise AttributeError" in s and "isinstance(attr, Attribute)" in s,
-        "dict-and-AttrSetup": "isinstance(attr_value, (dict, AttrSetup))" in s,
-    }
-    for k, ok in checks.items():
-        chk.require(ok, "R05.3", f"set_attributes:{k}", f"set_attributes no longer satisfies: {k}", sa.where)
-    init = item.lookup("__init__")
-    s = norm(init.node)
-    chk.require("self.set_attributes(**{k: v for k, v in kwargs.items() if v is not None})" in s, "R05.3",
-                "constructor-forwards-all-non-None-kwargs",
-                "the item constructor drops keyword values other than None (e.g. 0 or '')", init.where)
+    s = chk.terms.inline(sa, 3)
+    stores = attr_stores(s)
+    chk.floor("attribute-part stores in set_attributes", len(stores), 2)
+
+    def is_kwargs_items(it):
+        return is_call(it, "items") and it[1][1][0] == "param" and it[1][1][1].startswith("**")
+    plain, parts, other = [], [], []
+    for obj, key, val, e in stores:
+        loops = e.loops()
+        outer = loops[0] if loops else None
+        if outer is None or outer[0] != "for" or not is_kwargs_items(outer[2]):
+            other.append(e)
+            continue
+        el = ("elem", outer[2], outer[1])
+        name, given = ("sub", el, K(0)), ("sub", el, K(1))
+        attr_obj = [("call", ("global", "getattr"), (SELF, name, NONE), ()), ("call", ("global", "getattr"), (SELF, name), ())]
+        if obj not in attr_obj:
+            other.append(e)
+            continue
+        inst = [l for l in e.pc if (l[0] == "call" and l[1] == ("global", "isinstance") and l[2][0] == given) or
+                (l[0] == "not" and l[1][0] == "call" and l[1][1] == ("global", "isinstance") and l[1][2][0] == given)]
+        if key == K("value") and val == given and any(l[0] == "not" for l in inst):
+            plain.append(e)
+        elif len(loops) == 2 and is_call(loops[1][2], "items") and loops[1][2][1][1] == given:
+            el2 = ("elem", loops[1][2], loops[1][1])
+            guard = [l for l in e.pc if l[0] == "cmp" and l[1] == "in" and l[2] == ("sub", el2, K(0)) and
+                     l[3][0] in ("tuple", "list", "set") and {x[1] for x in l[3][1] if x[0] == "const"} == {"value", "units"}]
+            classes = {pp(c) for l in inst if l[0] == "call" for c in (l[2][1][1] if l[2][1][0] == "tuple" else (l[2][1],))}
+            if key == ("sub", el2, K(0)) and val == ("sub", el2, K(1)) and guard and {"dict", "AttrSetup"} <= classes:
+                parts.append(e)
+            else:
+                other.append(e)
+        else:
+            other.append(e)
+    where = sa.where
+    chk.require(bool(plain), "R05.3", "set_attributes:plain-value-to-.value",
+                "a plain keyword value is not stored into the `.value` part of the attribute named by the keyword", where)
+    chk.require(bool(parts), "R05.3", "set_attributes:parts-only-value-units",
+                "a dict / AttrSetup keyword value is not stored part by part into exactly the `value` / `units` parts of "
+                "the attribute (under `part in ('value', 'units')`)", where)
+    chk.require(not other, "R05.3", "set_attributes:no-other-store",
+                f"set_attributes also stores {[repr(e)[:90] for e in other[:2]]}: a store that is neither "
+                f"<attribute>.value = <given value> nor <attribute>.<part> = <given part>", where)
+    chk.require(all(e.kind == "call" for e in plain + parts), "R05.3", "set_attributes:through-setattr",
+                "the parts are not assigned through setattr / the property setters of the Attribute (converters and "
+                "checks would be skipped)", where, nontrivial=False)
+    ok = False
+    for pc, exc in raise_conditions(s):
+        for l in pc:
+            if contains(l, lambda x: x[0] == "call" and x[1] == ("global", "isinstance") and len(x[2]) == 2
+                        and x[2][1] == ("global", "Attribute")) and (l[0] in ("not", "or")):
+                ok = True
+    chk.require(ok, "R05.3", "set_attributes:unknown-attribute-raises",
+                "a keyword that does not name an Attribute of the item is not rejected", where)
+    init = chk.summary(item.lookup("__init__"))
+    fwd = [c for c in init.all_calls("set_attributes")]
+    ok = False
+    for c in fwd:
+        for k, v in c[3]:
+            if k is None and v[0] == "dstar" and v[1][0] == "comp" and v[1][1] == "dict" and len(v[1][3]) == 1:
+                pat, it, conds = v[1][3][0]
+                elt = v[1][2]
+                if is_kwargs_items(it) and len(conds) == 1 and conds[0][0] == "cmp" and conds[0][1] == "is not" and \
+                        conds[0][3] == NONE and conds[0][2] == elt[1] and elt[0][0] == "sub" and elt[1][0] == "sub":
+                    ok = True
+    chk.require(ok, "R05.3", "constructor-forwards-all-non-None-kwargs",
+                "the item constructor does not forward exactly the keyword values that are not None to set_attributes "
+                "(e.g. it drops 0 or '')", init.func.where)
     asetup = ix.get_class("AttrSetup")
-    items = asetup.lookup("items")
-    chk.consult(items)
-    tests = [n.test for n in walk_local(items.node) if isinstance(n, ast.If)]
-    ok = len(tests) == 1 and isinstance(tests[0], ast.Compare) and isinstance(tests[0].ops[0], ast.IsNot) \
-        and isinstance(tests[0].comparators[0], ast.Constant) and tests[0].comparators[0].value is None
-    chk.require(ok, "R05.3", "AttrSetup-yields-every-part-that-is-not-None",
-                f"AttrSetup.items filters its parts by {[norm(t) for t in tests]}: explicit falsy values (0, 0.0, False, "
-                f"'') passed through AttrSetup never reach the attribute", items.where)
-    names = [n for n in walk_local(items.node) if isinstance(n, ast.For)]
-    ok = names and try_const(names[0].iter) == ("value", "units")
-    chk.require(bool(ok), "R05.3", "AttrSetup-parts", "AttrSetup does not yield exactly 'value' and 'units'", items.where)
+    items = chk.summary(asetup.lookup("items"))
+    ys = unroll_const_loops([(pc, t, ctx, n) for pc, t, n, ctx in items.yields])
+    got = {}
+    bad = []
+    for pc, t, ctx, n in ys:
+        if t[0] == "tuple" and len(t[1]) == 2 and t[1][0][0] == "const" and t[1][1] == A(SELF, t[1][0][1]):
+            want = (("cmp", "is not", t[1][1], NONE),)
+            if tuple(pc) == want and not ctx:
+                got[t[1][0][1]] = True
+            else:
+                bad.append((t[1][0][1], [pp(c) for c in pc]))
+        else:
+            bad.append((pp(t), [pp(c) for c in pc]))
+    chk.require(not bad, "R05.3", "AttrSetup-yields-every-part-that-is-not-None",
+                f"AttrSetup.items yields {bad[:2]}: a part must be yielded exactly when it is not None (explicit falsy "
+                f"values 0, 0.0, False, '' included)", items.func.where)
+    chk.require(set(got) == {"value", "units"}, "R05.3", "AttrSetup-parts",
+                f"AttrSetup yields the parts {sorted(got)}, not exactly 'value' and 'units'", items.func.where)
 
 
 def r05_4_write_time_additions(chk):
+    """A value or unit added to an attribute by code reachable from DLISFile.write is a default: the store happens only
+    on paths where the attribute part was found unset (None / empty).  An unguarded store would replace what the user
+    assigned.  The stores are taken from the semantic inventory of sa/stores.py (object and part written, whichever
+    function or helper does the writing; path conditions rewritten into the terms of the object)."""
     from . import c14
-    tmp = Check("C14", "quick", 0, chk.ix, chk.cg, quiet=True)
-    c14.r14_5_write_path_stores(tmp)
-    n = 0
-    for o in tmp.obs:
-        if o.key.startswith("store:") or o.key.startswith("unclassified-store:"):
-            o.rule = "R05.4"
-            chk.obs.append(o)
-            n += 1
-    chk.floor("write-time stores classified", n, 8)
-    # each documented default is guarded by "not already set"
-    ix = chk.ix
-    guards = {
-        ("OriginItem", "_run_checks_and_set_defaults", "field_name"): "is None",
-        ("ChannelItem", "_run_checks_and_set_defaults", "long_name"): "not self.long_name.value",
-        ("LogicalFile", "_check_defining_origin_params", "file_id"): "is None",
-    }
-    for (cn, mn, fld), needle in guards.items():
-        f = ix.get_method(cn, mn)
-        ok = False
-        for n_ in walk_local(f.node):
-            if isinstance(n_, ast.If) and fld in norm(n_.test) and needle.split()[-1] in norm(n_.test):
-                if any(isinstance(x, ast.Assign) and fld in norm(x.targets[0]) for b in n_.body for x in ast.walk(b)):
-                    ok = True
-        chk.require(ok, "R05.4", f"default-only-if-unset:{cn}.{fld}",
-                    f"{cn}.{mn} assigns the default of {fld} without testing that the user left it unset", f.where)
+    from ..terms import pp
+    w = c14.write_path_stores(chk)
+    parts = [s for s in w.stores if s.field in ("value", "units")]
+    chk.floor("write-time stores into attribute parts", len({s.key for s in parts}), 8)
+    seen = set()
+    for s in parts:
+        target = ("attr", s.base, s.field)
+        unset = [l for l in s.pc if (l[0] == "cmp" and l[1] == "is" and l[2] == target and l[3] == ("const", None))
+                 or l == ("not", target)]
+        k = (s.key, bool(unset))
+        if k in seen:
+            continue
+        seen.add(k)
+        chk.consult(s.func)
+        chk.require(bool(unset), "R05.4", f"default-only-if-unset:{s.key}",
+                    f"{s.func.short} stores `{pp(s.value)[:70]}` into {s.key} under "
+                    f"{[pp(l)[:50] for l in s.pc] or 'no condition'}: nothing on that path says the attribute was unset, so "
+                    f"a value assigned by the user is replaced at write time", s.where)
 
 
 def r05_5_converters(chk):
@@ -221,27 +282,41 @@ def r05_5_converters(chk):
                         f"{d.key}: explicit code {code} on an attribute class with a fixed code", d.where,
                         nontrivial=False)
     chk.floor("numeric attributes with explicit codes", n, 10)
+    from ..terms import (SELF, A, K, return_alternatives, raise_conditions, is_call, call_arg, contains, pp)
     na = ix.get_class("NumericAttribute")
-    cn = na.lookup("_convert_number")
-    s = norm(cn.node)
-    chk.require("self._int_only or self.representation_code in ReprCodeConverter.int_codes" in s
-                and "return self._int_parser(value)" in s and "return self._float_parser(value)" in s, "R05.5",
-                "numeric-parser-follows-code", "NumericAttribute no longer parses integers for integer codes and floats "
-                "otherwise", cn.where)
-    ip = na.lookup("_int_parser")
-    s = norm(ip.node)
-    chk.require("is_integer()" in s and "raise ValueError" in s, "R05.5", "int-parser-rejects-fractions",
-                "a non-integral value assigned to an integer-coded attribute is truncated instead of rejected", ip.where)
+    cn = chk.terms.inline(na.lookup("_convert_number"), 2)
+    chk.consult(na.lookup("_convert_number"))
+    val = ("param", "value")
+
+    def int_cond(l, op=("in", "not in")):
+        return contains(l, lambda x: x[0] == "cmp" and x[1] in op and x[2] == A(SELF, "representation_code")
+                        and pp(x[3]).endswith("int_codes"))
+    ints = [(c, t) for c, t in return_alternatives(cn) if t == ("call", ("global", "int"), (val,), ())]
+    floats = [(c, t) for c, t in return_alternatives(cn) if t == ("call", ("global", "float"), (val,), ())]
+    ok = bool(ints) and bool(floats) and all(any(int_cond(l, ("in",)) for l in c) for c, _ in ints) and \
+        all(any(int_cond(l, ("not in",)) for l in c) for c, _ in floats) and \
+        len(return_alternatives(cn)) == len(ints) + len(floats)
+    chk.require(ok, "R05.5", "numeric-parser-follows-code",
+                f"NumericAttribute._convert_number returns {[pp(t) for _, t in return_alternatives(cn)][:3]}: it no longer "
+                f"yields int(value) for integer codes and float(value) otherwise", cn.func.where)
+    frac = [pc for pc, exc in raise_conditions(cn) if any(
+        contains(l, lambda x: (x[0] == "call" and x[1][0] == "attr" and x[1][2] == "is_integer") or
+                 (x[0] == "bin" and x[1] == "%" and x[3] == K(1))) for l in pc)]
+    chk.require(bool(frac), "R05.5", "int-parser-rejects-fractions",
+                "a non-integral value assigned to an integer-coded attribute is truncated instead of rejected",
+                cn.func.where)
     da = ix.get_class("DTimeAttribute")
-    s = norm(da.lookup("__init__").node)
-    chk.require("if not self._allow_float and (not self._representation_code):" in s
-                or "if not self._allow_float and not self._representation_code" in s, "R05.5",
-                "dtime-code-fixed-without-float", "a DTimeAttribute without allow_float may lack the DTIME code",
-                da.where)
+    di = chk.summary(da.lookup("__init__"))
+    sts = [e for e in di.stores("_representation_code") if pp(e.value).endswith("DTIME")]
+    ok = bool(sts) and all((("not", A(SELF, "_allow_float")) in e.pc or ("not", ("param", "allow_float")) in e.pc)
+                           and ("not", A(SELF, "_representation_code")) in e.pc for e in sts)
+    chk.require(ok, "R05.5", "dtime-code-fixed-without-float", "a DTimeAttribute without allow_float may lack the DTIME "
+                "code (it is not set exactly when no float is allowed and no code was given)", da.where)
     sa = ix.get_class("StatusAttribute")
-    s = norm(sa.lookup("convert_status").node)
-    chk.require("if val not in (0, 1):" in s and "raise ValueError" in s, "R05.5", "status-only-0-1",
-                "STATUS accepts values other than 0 and 1", sa.where)
+    cs = chk.summary(sa.lookup("convert_status"))
+    ok = any(any(l[0] == "cmp" and l[1] == "not in" and l[3][0] in ("tuple", "list", "set") and
+                 [x[1] for x in l[3][1]] in ([0, 1], [1, 0]) for l in pc) for pc, _ in raise_conditions(cs))
+    chk.require(ok, "R05.5", "status-only-0-1", "STATUS accepts values other than 0 and 1", sa.where)
 
 
 def r05_6_emitters(chk):
@@ -256,35 +331,42 @@ def r05_6_emitters(chk):
 
 
 def r05_7_setters(chk):
+    from ..terms import SELF, A, alternatives, return_alternatives, is_call, call_arg, pp, attr_stores
     ix = chk.ix
     model = Model(ix)
     attr = model.Attribute
-    us = attr.methods.get("units.setter")
-    chk.consult(us)
-    stores = [n for n in walk_local(us.node) if isinstance(n, ast.Assign) and any(is_self_attr(t, "_units")
-                                                                                for t in n.targets)]
-    ok = len(stores) == 1 and isinstance(stores[0].value, ast.Call) and "_unit_checker" in norm(stores[0].value.func)
-    chk.require(ok, "R05.7", "units-setter-stores-checked-result",
-                "the units setter stores its raw argument instead of the checker's result (a Unit enum member would be "
-                "written as 'Unit.XYZ')", us.where)
-    vs = attr.methods.get("value.setter")
-    stores = [n for n in walk_local(vs.node) if isinstance(n, ast.Assign) and any(is_self_attr(t, "_value")
-                                                                                for t in n.targets)]
-    ok = len(stores) == 1 and isinstance(stores[0].value, ast.Call) and "convert_value" in norm(stores[0].value.func)
-    chk.require(ok, "R05.7", "value-setter-stores-converted-result",
-                "the value setter does not store the converter's result", vs.where)
+    for key, field, checker in (("units.setter", "_units", "_unit_checker"), ("value.setter", "_value", "convert_value")):
+        f = attr.methods.get(key)
+        if f is None:
+            raise AnalysisError(f"Attribute.{key} not found")
+        su = chk.summary(f)
+        given = ("param", f.param_names[1])
+        sts = su.stores(field)
+        ok = bool(sts) and all(is_call(a, checker) and a[2] == (given,) for e in sts for _, a in alternatives(e.value))
+        chk.require(ok, "R05.7", f"{key.split('.')[0]}-setter-stores-checked-result",
+                    f"the {key.split('.')[0]} setter stores `{'; '.join(pp(e.value)[:50] for e in sts)}` instead of the "
+                    f"result of {checker}(<given>)" + (" (a Unit enum member would be written as 'Unit.XYZ')"
+                                                     if field == "_units" else ""), f.where)
     n_getters = 0
     for c in model.attr_classes:
         for m in c.methods.values():
             if m.kind == "property":
                 n_getters += 1
-                st = [s for s in stores_in(m) if isinstance(s.base, ast.Name) and s.base.id == "self"]
+                st = [e for obj, k, v, e in attr_stores(chk.summary(m)) if obj == SELF]
                 chk.require(not st, "R05.7", f"getter-effect-free:{m.short}",
-                            f"the property getter {m.short} stores `{st[0].target if st else ''}`: what it returns later "
-                            f"depends on what the attribute held when it was first read", m.where, nontrivial=False)
+                            f"the property getter {m.short} stores `{repr(st[0])[:60] if st else ''}`: what it returns "
+                            f"later depends on what the attribute held when it was first read", m.where, nontrivial=False)
     chk.floor("Attribute property getters", n_getters, 8)
     # the emitters str()-ify only str values: enum members are turned into their value by the converters
-    ve = ix.get_class("ValidatorEnum").lookup("make_converter")
-    s = norm(ve.node)
-    chk.require("if isinstance(v, cls):" in s and "return v.value" in s, "R05.7", "enum-members-stored-as-their-value",
-                "enum members accepted by the enum converters are not replaced by their string value", ve.where)
+    mk = ix.get_class("ValidatorEnum").lookup("make_converter")
+    conv = [f for f in ix.functions.values() if f.parent is mk]
+    if len(conv) != 1:
+        raise AnalysisError("ValidatorEnum.make_converter: expected exactly one nested converter function")
+    cs = chk.summary(conv[0])
+    v = ("param", conv[0].param_names[0])
+    member = ("call", ("global", "isinstance"), (v, ("free", "cls")), ())
+    alts = return_alternatives(cs)
+    as_value = [c for c, t in alts if t == A(v, "value") and member in c]
+    raw_member = [c for c, t in alts if t == v and member in c]
+    chk.require(bool(as_value) and not raw_member, "R05.7", "enum-members-stored-as-their-value",
+                "enum members accepted by the enum converters are not replaced by their string value", conv[0].where)
